@@ -4,6 +4,7 @@ CONSTANTS
   MaxH = 2
   MaxCh = 1
   Dev_HandleReuse = TRUE
+  Dev_SplitNotify = FALSE
   Dev_KeepOld = FALSE
 SPECIFICATION Spec
 CONSTRAINT Bound
